@@ -116,7 +116,12 @@ theorem pump_deliveries (fuel : Nat) (s : St) :
                 exact ⟨by omega, this.2⟩
             · simp only at h4; omega
           · rw [if_neg hup]
-            exact ⟨[], by simp, by simp, by simp, Nat.le_refl _, by simp⟩
+            by_cases hmr : s.maxRetries ≠ 0
+            · rw [if_pos hmr]
+              obtain ⟨D, h1, h2, h3, h4, _⟩ := ih { s with held := none, dropped := s.dropped ++ [(k, b)] }
+              exact ⟨D, h1, h2, h3, h4, fun _ => hl⟩
+            · rw [if_neg hmr]
+              exact ⟨[], by simp, by simp, by simp, Nat.le_refl _, by simp⟩
       | none =>
         simp only
         cases hne : s.fifo.nextEv with
@@ -196,6 +201,111 @@ theorem run_deliveries (s : St) (seg : List Op)
         | cons a l =>
           have := q4 (by rw [hD2]; simp)
           rw [hlead1] at this; exact this
+
+/-! ### without a finite retry limit nothing is ever dropped -/
+
+structure Keep (s t : St) : Prop where
+  mr : t.maxRetries = s.maxRetries
+  dropped : t.dropped = s.dropped
+
+theorem Keep.rfl' (s : St) : Keep s s := ⟨rfl, rfl⟩
+theorem Keep.trans' {a b c : St} (h2 : Keep b c) (h1 : Keep a b) : Keep a c :=
+  ⟨h2.mr.trans h1.mr, h2.dropped.trans h1.dropped⟩
+
+theorem keep_flush (s : St) : Keep s (flushBatcher s) := by
+  unfold flushBatcher
+  cases s.batcher <;> exact ⟨rfl, rfl⟩
+
+theorem keep_feed (s : St) (g : Group) : Keep s (feedGroup s g) := by
+  unfold feedGroup
+  split
+  · exact Keep.rfl' s
+  · simp only
+    split <;> exact ⟨rfl, rfl⟩
+
+theorem keep_foldl_feed (s : St) (gs : List Group) : Keep s (gs.foldl feedGroup s) := by
+  induction gs generalizing s with
+  | nil => exact Keep.rfl' s
+  | cons g gs ih => exact Keep.trans' (ih _) (keep_feed s g)
+
+theorem keep_applyEntry (s : St) (e : Entry) : Keep s (applyEntry s e) := by
+  unfold applyEntry
+  exact Keep.trans' (keep_foldl_feed _ _) ⟨rfl, rfl⟩
+
+theorem keep_foldl_applyEntry (L : List Entry) (s : St) : Keep s (L.foldl applyEntry s) := by
+  induction L generalizing s with
+  | nil => exact Keep.rfl' s
+  | cons e L ih => exact Keep.trans' (ih _) (keep_applyEntry s e)
+
+theorem keep_followerHwm (s : St) (n : Nat) : Keep s (followerHwm s n) := by
+  unfold followerHwm
+  split <;> exact ⟨rfl, rfl⟩
+
+theorem keep_foldl_followerHwm (l : List Nat) (s : St) : Keep s (l.foldl followerHwm s) := by
+  induction l generalizing s with
+  | nil => exact Keep.rfl' s
+  | cons n l ih => exact Keep.trans' (ih _) (keep_followerHwm s n)
+
+theorem keep_offerHwm (s : St) (n : Nat) : Keep s (offerHwm s n) := by
+  unfold offerHwm
+  split
+  · split <;> exact ⟨rfl, rfl⟩
+  · exact keep_followerHwm s n
+
+@[simp] theorem flush_mr (s : St) : (flushBatcher s).maxRetries = s.maxRetries := (keep_flush s).mr
+@[simp] theorem flush_dr (s : St) : (flushBatcher s).dropped = s.dropped := (keep_flush s).dropped
+@[simp] theorem applyEntry_mr (s : St) (e : Entry) : (applyEntry s e).maxRetries = s.maxRetries := (keep_applyEntry s e).mr
+@[simp] theorem applyEntry_dr (s : St) (e : Entry) : (applyEntry s e).dropped = s.dropped := (keep_applyEntry s e).dropped
+@[simp] theorem foldl_applyEntry_mr (L : List Entry) (s : St) : (L.foldl applyEntry s).maxRetries = s.maxRetries :=
+  (keep_foldl_applyEntry L s).mr
+@[simp] theorem foldl_applyEntry_dr (L : List Entry) (s : St) : (L.foldl applyEntry s).dropped = s.dropped :=
+  (keep_foldl_applyEntry L s).dropped
+@[simp] theorem foldl_followerHwm_mr (l : List Nat) (s : St) : (l.foldl followerHwm s).maxRetries = s.maxRetries :=
+  (keep_foldl_followerHwm l s).mr
+@[simp] theorem foldl_followerHwm_dr (l : List Nat) (s : St) : (l.foldl followerHwm s).dropped = s.dropped :=
+  (keep_foldl_followerHwm l s).dropped
+@[simp] theorem offerHwm_mr (s : St) (n : Nat) : (offerHwm s n).maxRetries = s.maxRetries := (keep_offerHwm s n).mr
+@[simp] theorem offerHwm_dr (s : St) (n : Nat) : (offerHwm s n).dropped = s.dropped := (keep_offerHwm s n).dropped
+
+theorem keep_stepCore (s : St) (op : Op) : Keep s (stepCore s op) := by
+  constructor
+  · cases op <;> simp only [stepCore] <;> (repeat' split) <;> simp
+  · cases op <;> simp only [stepCore] <;> (repeat' split) <;> simp
+
+theorem pump_no_drop (fuel : Nat) (s : St) (h : s.maxRetries = 0) : Keep s (pump fuel s) := by
+  induction fuel generalizing s with
+  | zero => exact Keep.rfl' s
+  | succ fuel ih =>
+    unfold pump
+    split
+    · exact Keep.rfl' s
+    · split
+      · split
+        · exact Keep.trans' (ih _ h) ⟨rfl, rfl⟩
+        · split
+          · exact Keep.trans' (ih _ h) ⟨rfl, rfl⟩
+          · split
+            · rename_i hmr; exact absurd h hmr
+            · exact Keep.rfl' s
+      · split
+        · exact Keep.rfl' s
+        · split
+          · exact Keep.trans' (ih _ h) ⟨rfl, rfl⟩
+          · exact Keep.trans' (ih _ h) ⟨rfl, rfl⟩
+
+/-- with `transmitMaxRetries` unset no event is ever given up on -/
+theorem run_no_drop (s : St) (ops : List Op) (h : s.maxRetries = 0) (hd : s.dropped = []) :
+    (run s ops).dropped = [] ∧ (run s ops).maxRetries = 0 := by
+  induction ops generalizing s with
+  | nil => exact ⟨hd, h⟩
+  | cons op rest ih =>
+    unfold run
+    have k1 := keep_stepCore s op
+    have k2 := pump_no_drop (2 * (stepCore s op).fifo.items.length + 2) (stepCore s op) (by rw [k1.mr]; exact h)
+    have hs : stepOp s op = pump (2 * (stepCore s op).fifo.items.length + 2) (stepCore s op) := rfl
+    apply ih
+    · rw [hs, k2.mr, k1.mr]; exact h
+    · rw [hs, k2.dropped, k1.dropped]; exact hd
 
 /-! ### the ghost `maxIn` is exactly the highest HWM announced by another node -/
 
